@@ -108,6 +108,16 @@ func parseValidatorTags(tag string) ([]validatorTag, error) {
 }
 
 func tryValidate(val reflect.Value) error {
+	// the value an interface holds, or the last pointer of a chain of
+	// pointers: that is what implements Validator, not what holds it
+	for val.Kind() == reflect.Interface ||
+		(val.Kind() == reflect.Ptr && val.Type().Elem().Kind() == reflect.Ptr) {
+		if val.IsNil() {
+			return nil
+		}
+		val = val.Elem()
+	}
+
 	t := val.Type()
 	var validator Validator
 
